@@ -150,7 +150,7 @@ func genCase(r *hx.Rand, tier string) *caseT {
 	k.Opt.NoGzip = r.Chance(1, 10)
 	k.Opt.NoBr = r.Chance(1, 5)
 	if r.Chance(1, 3) {
-		k.Opt.GzipLevel = ip(hx.Pick(r, []int{-1, 1, 6, 9, 0, -2}))
+		k.Opt.GzipLevel = ip(hx.Pick(r, []int{-1, 1, 6, 9, 0, -2, 42}))
 	}
 	if r.Chance(1, 3) {
 		k.Opt.BrLevel = ip(hx.Pick(r, []int{0, 1, 4, 5, 6, 9, 11, 15, -3}))
@@ -166,6 +166,12 @@ func genCase(r *hx.Rand, tier string) *caseT {
 	k.AE = genAE(r, simple)
 	if r.Chance(3, 5) { // make sure the middleware is usually active
 		k.AE = sp(hx.Pick(r, []string{"gzip", "br", "gzip, br", "br;q=0.9, gzip", "gzip;q=0.5, br;q=0.4", "deflate, gzip;q=1.0, *;q=0.5"}))
+	}
+	if !simple && r.Chance(1, 9) {
+		k.Pre = [][2]string{hx.Pick(r, [][2]string{{"Content-Encoding", "x-pre"}, {"X-Outer", "1"}, {"Vary", "Origin"}, {"Content-Type", "text/x-outer"}, {"Content-Encoding", ""}, {"Cache-Control", "private"}})}
+		if r.Chance(1, 3) {
+			k.Pre = append(k.Pre, [2]string{"X-Outer-2", "two"})
+		}
 	}
 	thr := k.Opt.MinSize
 	nops := r.Range(0, 8)
@@ -191,7 +197,11 @@ func genCase(r *hx.Rand, tier string) *caseT {
 			}
 		}
 		if r.Chance(2, 3) {
-			k.Prog = append(k.Prog, opT{K: "Sc", S: hx.Pick(r, []string{"f.txt", "f.bin", "noext", "f.html", "f.json"}), Data: chunk()})
+			d := chunk()
+			if r.Chance(1, 12) { // more than io.Copy's 32 KiB buffer: several writes
+				d = append(d, bytes.Repeat([]byte{'z'}, hx.Pick(r, []int{32768, 40000, 70000}))...)
+			}
+			k.Prog = append(k.Prog, opT{K: "Sc", S: hx.Pick(r, []string{"f.txt", "f.bin", "noext", "f.html", "f.json"}), Data: d})
 		} else {
 			d := chunk()
 			k.Prog = append(k.Prog, opT{K: "H", Key: "Content-Length", Vals: []string{strconv.Itoa(len(d))}})
@@ -327,6 +337,9 @@ func fixedCases() []*caseT {
 		{Path: "/p", AE: gz, Recovery: true, Prog: []opT{{K: "H", Key: "X-Custom", Vals: []string{"v1"}}, {K: "St", Code: 202}, {K: "Pn"}}},
 		// K15m (open): the panic comes after the compressed stream has started
 		{Path: "/p", AE: gz, Recovery: true, Prog: []opT{ct, {K: "B", Data: []byte("partial")}, {K: "Pn"}}},
+		// an outer middleware already declared an encoding: the middleware stays out
+		{Path: "/p", AE: gz, Pre: [][2]string{{"Content-Encoding", "x-pre"}}, Prog: []opT{ct, {K: "B", Data: []byte("pre-encoded")}}},
+		{Path: "/p", AE: gz, Pre: [][2]string{{"X-Outer", "1"}, {"Vary", "Origin"}}, Prog: []opT{{K: "B", Data: []byte("<html>x")}}},
 		// informational status, handler-declared encoding
 		{Path: "/p", AE: gz, Prog: []opT{ct, {K: "W", Code: 103}, {K: "W", Code: 404}, {K: "B", Data: []byte("nf")}}},
 		{Path: "/p", AE: gz, Prog: []opT{{K: "H", Key: "Content-Encoding", Vals: []string{"x-own"}}, {K: "B", Data: []byte("<html>own")}}},
